@@ -2,7 +2,7 @@
 import itertools
 import suite
 
-ALPHA30 = list("}{][:,/.=><%*)(-+") + list('!&|$"\\#a1_ \n') + ["é"]
+ALPHA30 = list("}{][:,/.=><%*)(-+") + list('!&|$"\\#a1_ \n') + ["é", "²", "λ", "\u00a0"]
 PUNCT = list("}{][:,/.=><%*)(-+!&|$\"\\#; \n\t\r") + ["..", "->", ":=", "==", "===", "!==", "fn", "if", "else", "for", "in",
                                                         "while", "return", "break", "1", "a", "_", "é", "€", "😀", "\\x", "${",
                                                         "$\"", "\\"]
@@ -37,7 +37,10 @@ def mutations(srcs, rng, per=10):
 
 
 def random_unicode(rng, n, maxlen=12):
-    pool = list("ab1_ \n\t\"$\\{}()[];#") + ["é", "ß", "€", "中", "😀", " ", " ", "\x0b", "\x0c", "\x00", "\x7f", "﻿"]
+    pool = list("ab1_ \n\t\"$\\{}()[];#!&|.=") + [
+        "é", "ß", "€", "中", "😀", "\u00a0", "\u2028", "\x0b", "\x0c", "\x00", "\x7f", "\ufeff",
+        # numerics, letters, titlecase, spaces, joiners, combining marks, bidi controls outside ASCII
+        "²", "½", "\u0663", "\u2167", "\u096b", "λ", "Ж", "\u01c5", "\u3000", "\u200d", "\u0301", "\u202e", "ª"]
     return ["".join(rng.choice(pool) for _ in range(rng.randrange(1, maxlen))) for _ in range(n)]
 
 
